@@ -336,14 +336,14 @@ var Zones = []string{"", "UTC", "fixed:+05:45", "fixed:-09:30", "fixed:+14:00", 
 	"Australia/Lord_Howe", "Asia/Kathmandu", "America/Havana", "America/Sao_Paulo"}
 
 // MidnightOK reports whether local midnight of the civil date exists exactly once in loc and no
-// offset change happens within two hours of it (so "the start of that day" is unambiguous).
+// offset change happens within an hour of it (so "the start of that day" is unambiguous).
 func MidnightOK(y, m, d int, loc *time.Location) bool {
 	t := time.Date(y, time.Month(m), d, 0, 0, 0, 0, loc)
 	if t.Hour() != 0 || t.Minute() != 0 || t.Day() != d || int(t.Month()) != m || t.Year() != y {
 		return false
 	}
 	_, o := t.Zone()
-	for _, dt := range []time.Duration{-2 * time.Hour, -time.Hour, -time.Second, time.Second, time.Hour, 2 * time.Hour} {
+	for _, dt := range []time.Duration{-time.Hour, -time.Second, time.Second, time.Hour} {
 		if _, o2 := t.Add(dt).Zone(); o2 != o {
 			return false
 		}
